@@ -13,39 +13,6 @@ typedef struct { int type; void *p; } al_obj;
 static long al_created[T_NTYPES], al_failed_ops, al_ok_ops;
 static volatile double al_sink;
 
-static const char *al_syms[] = { "H", "He", "Li", "C", "N", "O", "F", "Na", "Mg", "Al", "Si", "P", "S", "Cl", "K", "Ca", "Ti", "Fe", "Cu", "Zn", "Ge", "As", "Br", "Sr", "Zr", "Ag", "Sn", "I", "Ba", "Gd", "W", "Au", "Pb", "U", "Pu", "Fm", "Rf", "Uuo", "Xx", "h", "Hh" };
-#define NSYM ((int)(sizeof al_syms / sizeof al_syms[0]))
-static void al_gen_formula(xv_rng *r, char *buf, size_t n, int depth) {
-  size_t o = strlen(buf); int terms = 1 + xv_below(r, 4), t;
-  for (t = 0; t < terms && o < n - 40; t++) {
-    int k = xv_below(r, 100);
-    if (k < 18 && depth < 4) { buf[o++] = '('; buf[o] = 0; al_gen_formula(r, buf, n, depth + 1); o = strlen(buf); buf[o++] = ')'; buf[o] = 0; }
-    else { int s = xv_below(r, k < 92 ? 34 : NSYM); o += snprintf(buf + o, n - o, "%s", al_syms[s]); }
-    k = xv_below(r, 100);
-    if (k < 40) o += snprintf(buf + o, n - o, "%d", 1 + xv_below(r, 12));
-    else if (k < 55) o += snprintf(buf + o, n - o, "%d.%d", xv_below(r, 4), 1 + xv_below(r, 99));
-    else if (k < 58) o += snprintf(buf + o, n - o, "0");
-    else if (k < 60) o += snprintf(buf + o, n - o, "1.2.3");
-    buf[o] = 0;
-  }
-}
-static void al_hostile(xv_rng *r, char *buf, size_t n) {
-  /* mutate a generated formula into one of the rejection classes */
-  size_t l; int k;
-  buf[0] = 0; al_gen_formula(r, buf, n - 4, 0); l = strlen(buf);
-  switch (xv_below(r, 8)) {
-  case 0: buf[l++] = '('; break;
-  case 1: buf[l++] = ')'; break;
-  case 2: if (l) buf[xv_below(r, (uint32_t)l)] = ' '; break;
-  case 3: if (l) buf[xv_below(r, (uint32_t)l)] = (char)(1 + xv_below(r, 254)); break;
-  case 4: memmove(buf + 1, buf, l + 1); buf[0] = '7'; l++; break;
-  case 5: k = l ? xv_below(r, (uint32_t)l) : 0; memmove(buf + k + 2, buf + k, l - k + 1); buf[k] = 'X'; buf[k + 1] = 'x'; l += 2; break;
-  case 6: buf[0] = 0; l = 0; break;
-  default: buf[l++] = '.'; buf[l++] = '.'; break;
-  }
-  buf[l] = 0;
-}
-
 static void al_use(al_obj *o) {   /* read every field of a live object: ASan flags stale/shallow copies */
   double s = 0; int k;
   switch (o->type) {
@@ -92,7 +59,7 @@ static size_t alloc_run(long hno, int maxlen, int record) {
     if (np && op < 28) { k = xv_below(&r, np); al_use(&pool[k]); continue; }
     if (op < 40) {                                                 /* parser: valid and every rejection class */
       struct compoundData *c; buf[0] = 0;
-      if (xv_below(&r, 2)) al_gen_formula(&r, buf, sizeof buf - 8, 0); else al_hostile(&r, buf, sizeof buf - 8);
+      if (xv_below(&r, 2)) xv_gen_formula(&r, buf, sizeof buf - 8, 0); else xv_hostile(&r, buf, sizeof buf - 8);
       if (record) { LAST("CompoundParser(...)"); TR("parse(%.40s);", buf); }
       c = CompoundParser(xv_below(&r, 40) ? buf : NULL, &e); PUT(T_CD, c); OPT(e);
     } else if (op < 45) {                                          /* add_compound_data on two live compositions */
@@ -102,7 +69,7 @@ static size_t alloc_run(long hno, int maxlen, int record) {
       static double (*cp1[])(const char *, double, xrl_error **) = { CS_Total_CP, CS_Photo_CP, CSb_Rayl_CP, CS_Energy_CP, CS_Total_Kissel_CP, CSb_Photo_Total_CP };
       const char *s; double E = xv_below(&r, 8) ? 0.5 + 80 * xv_unit(&r) : -1.0 + xv_below(&r, 2);
       buf[0] = 0; k = xv_below(&r, 10);
-      if (k < 4) { al_gen_formula(&r, buf, sizeof buf - 8, 0); s = buf; } else if (k < 7) s = nist[xv_below(&r, nnist)]; else if (k < 9) { al_hostile(&r, buf, sizeof buf - 8); s = buf; } else s = NULL;
+      if (k < 4) { xv_gen_formula(&r, buf, sizeof buf - 8, 0); s = buf; } else if (k < 7) s = nist[xv_below(&r, nnist)]; else if (k < 9) { xv_hostile(&r, buf, sizeof buf - 8); s = buf; } else s = NULL;
       if (record) { LAST("_CP/refractive"); TR("cp(%.30s,%g);", s ? s : "NULL", E); }
       switch (xv_below(&r, 5)) {
       case 0: al_sink += cp1[xv_below(&r, 6)](s, E, &e); break;
